@@ -44,6 +44,9 @@ import (
 	"github.com/emmansun/gmsm/smx509"
 
 	"gmsmverif/internal/rt"
+
+	"golang.org/x/crypto/cryptobyte"
+	cbasn1 "golang.org/x/crypto/cryptobyte/asn1"
 )
 
 type entry map[string]interface{}
@@ -211,6 +214,31 @@ func main() {
 		add("sm9-ct-raw", "sm9-ct-raw-"+m.n, c, false, entry{"upriv": hx(eukRaw), "uid": hx(uid), "mode": m.n})
 		c = mustB(sm9.EncryptASN1(rnd, empub, uid, hidE, pt, m.o))
 		add("sm9-ct-asn1", "sm9-ct-asn1-"+m.n, c, true, entry{"upriv": hx(eukRaw), "uid": hx(uid), "mode": m.n})
+	}
+	// hostile by construction: a sender needs only the master PUBLIC key to make the MAC (C3) of an arbitrary C2
+	// valid - here a C2 that is not a whole number of cipher blocks. Assembled from library calls
+	// (WrapKey, sm3, cryptobyte as in sm9.Encrypt); marked crafted, no vacuity expectation.
+	for _, m := range []struct {
+		n   string
+		typ int64
+	}{{"ecb", 1}, {"cbc", 2}} {
+		k, c1, err := sm9.WrapKey(rnd, empub, uid, hidE, 16+sm3.Size)
+		must(err)
+		c2 := append([]byte{}, pt[:16+16+1]...)
+		h := sm3.New()
+		h.Write(c2)
+		h.Write(k[16:])
+		c3 := h.Sum(nil)
+		raw := append(append(append([]byte{}, c1[1:]...), c3...), c2...)
+		add("sm9-ct-raw", "sm9-ct-raw-crafted-"+m.n, raw, false, entry{"upriv": hx(eukRaw), "uid": hx(uid), "mode": m.n, "crafted": true, "nomust": true})
+		var b cryptobyte.Builder
+		b.AddASN1(cbasn1.SEQUENCE, func(b *cryptobyte.Builder) {
+			b.AddASN1Int64(m.typ)
+			b.AddASN1BitString(c1)
+			b.AddASN1OctetString(c3)
+			b.AddASN1OctetString(c2)
+		})
+		add("sm9-ct-asn1", "sm9-ct-asn1-crafted-"+m.n, mustB(b.Bytes()), true, entry{"upriv": hx(eukRaw), "uid": hx(uid), "mode": m.n, "crafted": true, "nomust": true})
 	}
 	// key exchange: initiator's first message rA, consumed by the responder
 	eukB, err := emk.GenerateUserKey([]byte("Bob"), hidE)
@@ -489,4 +517,3 @@ func main() {
 	must(f.Close())
 	fmt.Fprintf(os.Stderr, "corpus: %d artefacts\n", count)
 }
-
